@@ -12,6 +12,14 @@ na = []
 for p in props:
     i = p['id']
     c = claims.get(i)
+    # the rule-by-rule statement maintained next to the rules themselves (checker/cNN.go `explain`, copied into every
+    # evidence file) is the authoritative text; claims.json holds the shorter first-version summary as a fallback
+    try:
+        ex = json.load(open(os.path.join(V, 'evidence', i + '.json')))['coverage']['explanation']
+        if c and ex:
+            c = dict(c, text=ex)
+    except Exception:
+        pass
     if i in impl and c and c.get('claim', True):
         checks.append({
             "property_id": i,
